@@ -174,6 +174,15 @@ CLAIMS['C09'] = dict(
          '(one frame with float / int / text columns), not decided symbolically: the property is claimed in part.',
     technique=TECH_C, engine='ch', ref='DESIGN.md section 3, C09')
 
+CLAIMS['C18'] = dict(
+    text='Narrow claim: the alias relation between caller-visible arrays (incl. the data blocks of Grid arguments) and kernel arguments is recorded by '
+         'running the real wrappers with a recording stand-in over a dtype/layout grid; for every kernel buffer that a caller array can alias, z3-backed '
+         'symbolic execution of the kernel IR shows that no store instruction targets that buffer on any feasible path and that the kernel writes no '
+         'global (hence is a function of its arguments); an aliasing pair not in the verified table is a harness error.',
+    note='Only the mechanism "caller data never reaches a kernel that writes it" is claimed. Plot helpers, pandas copies, transform methods, RNG-seeded '
+         'repeatability and Python-only functions are outside. numpy copy/view decisions are assumed to depend on dtype and layout, not on values.',
+    technique=TECH_A + ' + recorded alias relation', engine='llir', ref='DESIGN.md section 3, C18')
+
 PENDING = 'check not built yet in this session (planned, see DESIGN.md section 3)'
 NOT_APPLICABLE = {
     'C13': 'persistence is carried by numpy tofile/fromfile, dtype objects, zipfile and float repr: no arithmetic core a solver can be given; '
